@@ -390,6 +390,24 @@ def c07_batches(seed, tier):
                         w.append({"ev": "release", "k": "KEY_F9"})
                     walks.append(w)
                 batches.append({"cfg": cfg, "cfgmode": "literal", "sub": "", "walks": walks})
+    # back-pressure on the MIDI output (the application's channel has 8 slots, a port can be slow): a one-slot channel
+    # with a reader that takes 200 us per message - every message still has to arrive, the zero for the side left too
+    for flip in (False, True):
+        ax = {"ABS_X": axis("cc", cc=40, ccNeg=41, off=1, offNeg=2, bidi=True, flip=flip, dzn=0, dzd=1),
+              "ABS_RX": axis("cc", cc=42, ccNeg=43, off=0, offNeg=5, bidi=True, centre=True, flip=not flip, dzn=1, dzd=10)}
+        info = {"ABS_X": {"min": -128, "max": 127}, "ABS_RX": {"min": 0, "max": 255}}
+        cfg = base_cfg(dChan=rng.randrange(16), maps=[{"name": "M1", "keys": {}, "axes": ax}], axinfo=info)
+        walks = []
+        for _ in range(4 if tier == "quick" else 20):
+            w = []
+            for _ in range(120):
+                a = rng.choice(sorted(ax))
+                mn, mx = info[a]["min"], info[a]["max"]
+                raw = rng.choice([mn, mx, mn, mx, (mn + mx) // 2 + 1, rng.randint(mn, mx)])
+                if not on_float_boundary(info[a], ax[a], raw):
+                    w.append({"ev": "axis", "a": a, "raw": raw})
+            walks.append(w)
+        batches.append({"cfg": cfg, "cfgmode": "literal", "sub": "", "walks": walks, "outcap": 1, "slow_us": 200})
     return batches
 
 
@@ -574,6 +592,58 @@ def panic_axis_batches(seed, tier):
                     mn, mx = info[a]["min"], info[a]["max"]
                     w.append({"ev": "axis", "a": a, "raw": (mn + mx) // 2 + 1 if mn == 0 else 0})
                 walks.append(w)
+            batches.append({"cfg": cfg, "cfgmode": "literal", "sub": "", "walks": walks})
+    return batches
+
+
+def two_handler_key_batches(seed, tier):
+    """A stick that emulates keys and another handler of the same device (a touchpad) that reports THE SAME axis codes as
+    controllers: the reports are interleaved, the touchpad often reports the value the stick will report next (0 above all)."""
+    rng = random.Random(seed * 919 + 41)
+    batches = []
+    for flip in (False, True):
+        ax = {"ABS_X": axis("key", note=60, noteNeg=58, off=0, offNeg=2, bidi=True, flip=flip, dzn=1, dzd=10),
+              "ABS_Y": axis("key", note=64, noteNeg=0, off=1, bidi=False, dzn=0, dzd=1),
+              "Touchpad:ABS_X": axis("cc", cc=30, off=3, dzn=1, dzd=10),
+              "Touchpad:ABS_Y": axis("pitch_bend", off=4, dzn=0, dzd=1)}
+        info = {a: {"min": -128, "max": 127} for a in ax}
+        cfg = base_cfg(dChan=rng.randrange(16), actions={"KEY_F2": "octave_up", "KEY_F1": "octave_down"},
+                       maps=[{"name": "M1", "keys": {}, "axes": ax}], axinfo=info)
+        walks = []
+        for _ in range(6 if tier == "quick" else 40):
+            w = []
+            for _ in range(120):
+                a = rng.choice(["ABS_X", "ABS_Y"])
+                v = rng.choice([-128, 127, 100, -100, 64, -70])
+                w.append({"ev": "axis", "a": a, "raw": v})
+                for _ in range(rng.randrange(0, 3)):
+                    w.append({"ev": "axis", "a": "Touchpad:" + a, "raw": rng.choice([0, 0, 5, v, 127, -128])})
+                if rng.random() < 0.2:
+                    k = rng.choice(["KEY_F1", "KEY_F2"])
+                    w += [{"ev": "press", "k": k}, {"ev": "release", "k": k}]
+                w.append({"ev": "axis", "a": a, "raw": rng.choice([0, 0, 0, 3, -5])})
+            for a in ("ABS_X", "ABS_Y"):
+                w.append({"ev": "axis", "a": a, "raw": 1})
+                w.append({"ev": "axis", "a": a, "raw": 0})
+            walks.append(w)
+        batches.append({"cfg": cfg, "cfgmode": "literal", "sub": "", "walks": walks})
+    return batches
+
+
+def edge_pitch_collisions(seed, tier):
+    """Keys that share pitches AT THE ENDS of the MIDI range, octave and semitone keys: collisions while some holders are
+    transposed out of range (their presses are silent), released and pressed again in every order."""
+    rng = random.Random(seed * 677 + 23)
+    batches = []
+    n_walks, length = (10, 300) if tier == "quick" else (60, 600)
+    for mode in ["no_repeat", "interrupt", "retrigger", "off"]:
+        for base in (120, 5):
+            keys = {"KEY_Q": {"n": base, "o": 0}, "KEY_W": {"n": base, "o": 0}, "KEY_E": {"n": base + 1, "o": 0}, "KEY_R": {"n": base - 4, "o": 0}}
+            cfg = base_cfg(mode=mode, vel=90, dChan=rng.randrange(16),
+                           actions={"KEY_F1": "octave_down", "KEY_F2": "octave_up", "KEY_F3": "semitone_down", "KEY_F4": "semitone_up"},
+                           maps=[{"name": "M1", "keys": keys, "axes": {}}])
+            walks = [random_key_walk(rng, cfg, length, sorted(keys), sorted(cfg["actions"]), p_action=0.25, oct_bound=1, semi_bound=2)
+                     for _ in range(n_walks)]
             batches.append({"cfg": cfg, "cfgmode": "literal", "sub": "", "walks": walks})
     return batches
 
